@@ -737,6 +737,8 @@ impl<'a, 'ast> Visit<'ast> for Collector<'a> {
         }
         // R9: `match s { "a" => A, "b" | "c" => B, other => Z }` becomes an if-chain over str_eq
         let scrut = self.render(&m.expr);
+        // the scrutinee may be mapped by a //@src line (e.g. a chain of std string methods replaced by one modelled call)
+        let scrut = self.map_source(scrut);
         let mut out = format!("{{ let scrut__ = {scrut}; ");
         let mut closed = false;
         for (i, a) in m.arms.iter().enumerate() {
